@@ -77,15 +77,14 @@ def calcBlocksStale (bs : Nat) (secs : List Sec) : Option (List Block) :=
 def secMask (secs : List Sec) : List Bool :=
   secs.flatMap fun s => List.replicate s.len (!s.pad)
 
-/-- Mask painted by a sorted block list, starting at position `pos`; `none` if a block
-starts before `pos` (overlap / unsorted). -/
-def blkMaskFrom : Nat → List Block → Option (List Bool)
-  | _, [] => some []
-  | pos, b :: rest =>
-    if b.b < pos then none else
-    match blkMaskFrom (b.b + b.l) rest with
-    | none => none
-    | some m => some (List.replicate (b.b - pos) false ++ List.replicate b.l true ++ m)
+/-- Paint one block after the mask so far; `none` if it starts inside what is already
+painted (overlap / unsorted). Gaps are unrequested (`false`) positions. -/
+def paint (m : List Bool) (b : Block) : Option (List Bool) :=
+  if b.b < m.length then none
+  else some (m ++ List.replicate (b.b - m.length) false ++ List.replicate b.l true)
+
+/-- Mask painted by a block list given in ascending order. -/
+def blkMask (blocks : List Block) : Option (List Bool) := blocks.foldlM paint []
 
 def padTo (n : Nat) (m : List Bool) : List Bool := m ++ List.replicate (n - m.length) false
 
@@ -95,7 +94,7 @@ def total (secs : List Sec) : Nat := (secs.map (·.len)).sum
 union is exactly the set of non-padding byte positions. -/
 def Tiles (bs : Nat) (secs : List Sec) (blocks : List Block) : Bool :=
   blocks.all (fun b => 0 < b.l && b.l ≤ bs) &&
-  match blkMaskFrom 0 blocks with
+  match blkMask blocks with
   | none => false
   | some m => m.length ≤ total secs && padTo (total secs) m == secMask secs
 
